@@ -66,6 +66,8 @@ type ExecDouble struct {
 	Finals    []int
 	// Gate, when non-nil, is received from before ExecuteTxs proceeds (scheduler handle).
 	Gate chan struct{}
+	// Probe, when set, is sampled when SetFinal is called: the DA-included height reported at that instant.
+	Probe func() int
 }
 
 func NewExecDouble(tr *Tracer, node string, ids *TxIDs) *ExecDouble {
@@ -178,15 +180,19 @@ func (e *ExecDouble) ExecuteTxs(ctx context.Context, txs [][]byte, blockHeight u
 }
 
 func (e *ExecDouble) SetFinal(ctx context.Context, blockHeight uint64) error {
+	incl := -1
+	if p := e.Probe; p != nil {
+		incl = p()
+	}
 	e.mu.Lock()
 	if e.FailFinal > 0 {
 		e.FailFinal--
 		e.mu.Unlock()
-		e.tr.Emit("ExecFinal", F{"node": e.node, "h": int(blockHeight), "ok": false})
+		e.tr.Emit("ExecFinal", F{"node": e.node, "h": int(blockHeight), "ok": false, "incl": incl})
 		return errors.New("execdouble: scripted finalize failure")
 	}
 	e.Finals = append(e.Finals, int(blockHeight))
 	e.mu.Unlock()
-	e.tr.Emit("ExecFinal", F{"node": e.node, "h": int(blockHeight), "ok": true})
+	e.tr.Emit("ExecFinal", F{"node": e.node, "h": int(blockHeight), "ok": true, "incl": incl})
 	return nil
 }
